@@ -614,6 +614,26 @@ func DetExpr(c *core.Ctx, rule string) {
 							}
 							return true
 						})
+						// an in-place total-order sort (sort.Strings(v), slices.Sort(v)) as a statement of its own also
+						// ends the hash-ordered life of the variable
+						ast.Inspect(fb.Body, func(x ast.Node) bool {
+							es, ok := x.(*ast.ExprStmt)
+							if !ok || es.Pos() < pp.End() {
+								return true
+							}
+							call, ok := ast.Unparen(es.X).(*ast.CallExpr)
+							if !ok || len(call.Args) == 0 || objOf(info, call.Args[0]) != v {
+								return true
+							}
+							callee := calleeOf(info, call)
+							if callee == nil || callee.Pkg() == nil || (callee.Pkg().Path() != "sort" && callee.Pkg().Path() != "slices") {
+								return true
+							}
+							if isSortCall(info, call) && totalOrderSort(info, call) && (cleanFrom == 0 || es.End() < cleanFrom) {
+								cleanFrom = es.End()
+							}
+							return true
+						})
 						ast.Inspect(fb.Body, func(x ast.Node) bool {
 							id, ok := x.(*ast.Ident)
 							if !ok || info.Uses[id] != v || id.Pos() < pp.End() {
